@@ -353,6 +353,8 @@ func checkOrderedMapCoupling(r *Reporter, p *Prog) {
 				}
 			}
 			if loop != nil && cursor != nil {
+				// (a direction flag handed to a shared iteration helper as a constant fixes the branch taken)
+				fixed := f.constBoolParams()
 				for _, b := range f.G.Blocks {
 					if !b.Live {
 						continue
@@ -363,6 +365,11 @@ func checkOrderedMapCoupling(r *Reporter, p *Prog) {
 							continue
 						}
 						pt := Point{b, i}
+						if len(fixed) > 0 {
+							if _, feasible := f.reach(f.entry(), &searchOpts{InitFacts: fixed}, func(q Point, atExit bool) bool { return !atExit && f.At(q, pt) }); !feasible {
+								continue
+							}
+						}
 						k := f.KeyAt(as.Rhs[0], pt)
 						fieldName := k[strings.LastIndex(k, ".")+1:]
 						if f.InLoopBody(*loop, pt) || b.Kind == cfg.KindForPost {
